@@ -28,7 +28,7 @@ ASSUMPTIONS = [
     "thresholds: loss(truth) <= r * loss(perturbed) with r = 1e-6 (l2) / 1e-3 (l1: float32 rounding of 1e4 pixels of ~1e4 counts); gradient ratio 3e-3 (no_shift) / 1e-2 (constant)",
     "absorbing objects and plane/parabola descan fits are outside the claim (property text)",
 ]
-BUDGET = {"quick": {"soft_s": 150, "workers": 14}, "thorough": {"soft_s": 1200, "workers": 14}}
+BUDGET = {"quick": {"soft_s": 300, "workers": 14}, "thorough": {"soft_s": 1200, "workers": 14}}
 MIN_EVALUATIONS = {"quick": 30, "thorough": 300}
 REQUIRED_COUNTERS = ["eval:loss_at_truth_nonzero", "eval:truth_not_stationary"]
 
